@@ -447,6 +447,16 @@ def r_union(repo, tier):
                     if any(isinstance(r, ast.Return) and isinstance(r.value, ast.Tuple) and r.value.elts and isinstance(r.value.elts[0], ast.Name) and r.value.elts[0].id == n.target.id for r in ast.walk(n)):
                         kinds.add(cname)
     if len(kinds) < 2:
+        # other spellings: the two lists are iterated (loop or comprehension) somewhere in getinfo and what is
+        # returned first is a plain name
+        returns_name = any(isinstance(r, ast.Return) and isinstance(r.value, ast.Tuple) and r.value.elts and isinstance(r.value.elts[0], ast.Name) for r in ast.walk(gi.node))
+        for n in ast.walk(gi.node):
+            it = n.iter if isinstance(n, (ast.For, ast.comprehension)) else None
+            if it is not None and returns_name:
+                for cname in structs:
+                    if "self.%s" % cname in norm(it):
+                        kinds.add(cname)
+    if len(kinds) < 2:
         raise AnalysisError("R-UNION: Elf.getinfo no longer returns both section and program headers (found %s)" % sorted(kinds))
     fieldsets = {k: {f.name for f in structs[k].fields} for k in kinds}
     exclusive = {k: fieldsets[k] - set().union(*[v for kk, v in fieldsets.items() if kk != k]) for k in kinds}
